@@ -21,6 +21,8 @@ var abVAS = [][2]string{
 	{"ADDRLAST", "(ethcommon.Address).Bytes(ethcrypto.PubkeyToAddress(crypto/ecdsa.PublicKey{X:LASTX,Y:LASTY}))"},
 	{"ADDRREC", "(ethcommon.Address).Bytes(ethcrypto.PubkeyToAddress(crypto/ecdsa.PublicKey{X:RECX,Y:RECY}))"},
 	{"V", "SIG[(len(SIG) - 1)]"},
+	// the previous signer kept as its address (loop-carried value) instead of as a key
+	{"PREVADDR", "phi(ADDRREC|nil)"},
 }
 
 func runC01(p *Prog, r *Report, tier string) {
@@ -84,14 +86,17 @@ func runC01(p *Prog, r *Report, tier string) {
 	// 3. per-iteration rules: from body entry, the back edge is cut by each rule
 	iter := []guardRow{
 		{"iteration/recovery-ok", []Atom{A("(ECR#1 == nil)")}, backJumps},
-		{"iteration/strictly-increasing-signer-address", []Atom{A("(nil == LASTX)"), A("(nil == LASTY)"), A("(bytes.Compare(ADDRLAST,ADDRREC) < 0)")}, backJumps},
+		{"iteration/strictly-increasing-signer-address", []Atom{A("(nil == LASTX)"), A("(nil == LASTY)"), A("(bytes.Compare(ADDRLAST,ADDRREC) < 0)"),
+			// same rule with the previous signer's address carried from iteration to iteration:
+			// first iteration (no previous address / i == 0), or strictly greater
+			A("(nil == PREVADDR)"), A("(I < 1)"), A("(0 == I)"), A("(bytes.Compare(PREVADDR,ADDRREC) < 0)")}, backJumps},
 		{"iteration/signer-is-enabled-attester", []Atom{A("bytes.Equal(ethcommon.FromHex(p2[#j0].Attester),ECR#0)"), A("bytes.Equal(ethcommon.FromHex(p2[#^i0].Attester),ECR#0)")}, backJumps},
 	}
 	for _, g := range iter {
 		c.requireCutFrom("G-cut", g.name, body, g.guard, g.scope)
 		c.requireFailArm("G-fail", g.name, g.guard, false)
 	}
-	rejects = append(rejects, A("!(ECR#1 == nil)"), A("!(bytes.Compare(ADDRLAST,ADDRREC) < 0)"), A("!phi(false|true)"),
+	rejects = append(rejects, A("!(ECR#1 == nil)"), A("!(bytes.Compare(ADDRLAST,ADDRREC) < 0)"), A("!(bytes.Compare(PREVADDR,ADDRREC) < 0)"), A("!phi(false|true)"),
 		// the membership scan ran to its end without a match (jump-threaded through the `contains` flag)
 		A("!(#j0 < len(p2))"), A("!(#^i0 < len(p2))"))
 	c.exact("G-exact", rejects)
@@ -122,8 +127,33 @@ func runC01(p *Prog, r *Report, tier string) {
 			}
 		}
 	}
-	if latest == nil {
-		r.undecided("G-mpt", "G-mpt/VAS/previous:=recovered", c.pos(), "cannot identify the previous-signer variable (no `latest.X != nil` test found)")
+	// the address-carrying form: a phi of the loop header that is nil on entry and the
+	// recovered address on every back edge
+	var prevPhi *ssa.Phi
+	if latest == nil && header != nil {
+		for _, in := range header.Block().Instrs {
+			phi, ok := in.(*ssa.Phi)
+			if !ok || c.term(phi, phi) != "PREVADDR" {
+				continue
+			}
+			okEdges := len(phi.Edges) == len(header.Block().Preds)
+			for i, e := range phi.Edges {
+				pred := header.Block().Preds[i]
+				back := header.Block().Dominates(pred)
+				et := c.term(e, pred.Instrs[len(pred.Instrs)-1])
+				if (back && et != "ADDRREC") || (!back && et != "nil") {
+					okEdges = false
+				}
+			}
+			if okEdges {
+				prevPhi = phi
+			}
+		}
+	}
+	if prevPhi != nil {
+		r.ok("G-mpt", "G-mpt/VAS/previous:=recovered", p.instrPos(prevPhi), "the previous-signer address is nil on entry and the recovered address on every path to the next iteration")
+	} else if latest == nil {
+		r.undecided("G-mpt", "G-mpt/VAS/previous:=recovered", c.pos(), "cannot identify the previous-signer variable (no `latest.X != nil` test and no loop-carried previous address found)")
 	} else {
 		var setX, setY []ssa.Instruction
 		for _, b := range vas.Blocks {
